@@ -135,7 +135,8 @@ def Fp.foldMap (f : Fp) (bits method : Nat) : List (Nat × Nat) :=
 /-- `f == g` -/
 def Fp.eq (f g : Fp) : Except Err Bool :=
   match f.kind, g.kind with
-  | .bit, _ => .ok (f.level == g.level && f.bits == g.bits && g.kind == .bit && f.idx == g.idx)
+  | .bit, .bit => .ok (f.level == g.level && f.bits == g.bits && f.idx == g.idx)
+  | .bit, _ => .error .invalidFp   -- Python tries the subclass's reflected `__eq__` first, which rejects a bit operand
   | _, .bit => .error .invalidFp
   | _, _ => .ok (f.level == g.level && f.bits == g.bits && f.cnt == g.cnt && f.kind == g.kind)
 
@@ -229,8 +230,8 @@ def Fp.toDense (f : Fp) : List Rat := (List.range f.bits).map f.count
 
 /-- `cls.from_vector(dense)` : non-zero positions and their values -/
 def fromDense (k : Kind) (v : List Rat) (level : Int) : Except Err Fp :=
-  let nz := (List.range v.length).filter (fun i => decide (v.getD i 0 ≠ 0))
-  fromIndices k nz (some (nz.map (fun i => (i, v.getD i 0)))) v.length level
+  let nz := v.zipIdx.filter (fun p => decide (p.1 ≠ 0))
+  fromIndices k (nz.map Prod.snd) (some (nz.map (fun p => (p.2, p.1)))) v.length level
 
 /-- `cls.from_vector(csr row)` : stored positions (explicit zeros included) and their values -/
 def fromSparse (k : Kind) (stored : List (Nat × Rat)) (bits : Nat) (level : Int) : Except Err Fp :=
@@ -241,7 +242,7 @@ def Fp.toBitstring (f : Fp) : List Bool := (List.range f.bits).map (fun i => dec
 
 /-- `from_bitstring` -/
 def fromBitstring (k : Kind) (s : List Bool) (level : Int) : Except Err Fp :=
-  fromIndices k ((List.range s.length).filter (fun i => s.getD i false)) none s.length level
+  fromIndices k ((s.zipIdx.filter (fun p => p.1)).map Prod.snd) none s.length level
 
 /-- `to_rdkit`: (`GetNumBits`, on bits) -/
 def Fp.toRdkit (f : Fp) : Nat × List Nat :=
